@@ -345,6 +345,7 @@ type TableOpts struct {
 	Kinds            []int
 	HashPoolMax      int
 	NoLogs           bool
+	Hot              bool // one or two ids in very many small ref blocks (truncated object-index position lists)
 }
 
 var allKinds = []int{KDel, KVal, KVal, KVal, KPeeled, KPeeled, KSym}
@@ -354,6 +355,10 @@ func DrawTable(t *rapid.T, o TableOpts) TableSpec {
 	cfg := DrawCfg(t)
 	if o.SmallBlocks && rapid.IntRange(0, 3).Draw(t, "forceSmall") != 0 {
 		cfg.BlockSize = rapid.SampledFrom([]uint32{64, 72, 80, 96, 128, 160, 200, 256}).Draw(t, "bsSmall")
+	}
+	if o.Hot {
+		cfg.BlockSize = rapid.SampledFrom([]uint32{64, 72, 80, 96, 128, 160}).Draw(t, "bsHot")
+		cfg.SkipIndexObjects = false
 	}
 	min, max := DrawLimits(t)
 	return DrawTableWith(t, cfg, min, max, o)
@@ -384,6 +389,9 @@ func DrawTableWith(t *rapid.T, cfg Cfg, min, max uint64, o TableOpts) TableSpec 
 	}
 	if o.MaxRefs == 0 {
 		nrefs = 0
+	}
+	if o.Hot {
+		nrefs = rapid.IntRange(minInt(40, o.MaxRefs), o.MaxRefs).Draw(t, "nrefsHot")
 	}
 	for i := 0; i < nrefs; i++ {
 		if r, ok := drawRef(t, ng, hp, min, max, maxRec, o.Kinds); ok {
